@@ -265,25 +265,6 @@ def encodeDoc (s : Schema) (db : V) : Outcome (List Char) :=
 
 def badOutcome {α : Type} (u : Bool) : Outcome α := if u then .unmodelled else .err .parse
 
-/-- character data directly inside the current element (nested elements are skipped), up to and
-    including the matching end tag -/
-def collectText : Nat → List XTok → Outcome (List Char × List XTok)
-  | _, [] => .err .eof
-  | _, .bad u :: _ => badOutcome u
-  | depth, .text t :: r => if depth = 0 then (collectText depth r).map fun (a, b) => (t ++ a, b) else collectText depth r
-  | depth, .start _ _ :: r => collectText (depth + 1) r
-  | 0, .stop _ :: r => .ok ([], r)
-  | depth + 1, .stop _ :: r => collectText depth r
-
-/-- `Decoder.Skip` -/
-def skipElem : Nat → List XTok → Outcome (List XTok)
-  | _, [] => .err .eof
-  | _, .bad u :: _ => badOutcome u
-  | depth, .text _ :: r => skipElem depth r
-  | depth, .start _ _ :: r => skipElem (depth + 1) r
-  | 0, .stop _ :: r => .ok r
-  | depth + 1, .stop _ :: r => skipElem depth r
-
 def parseBoolGo (s : List Char) : Option Bool :=
   let t := String.ofList s
   if ["1", "t", "T", "TRUE", "true", "True"].contains t then some true
